@@ -309,8 +309,26 @@ func runC15(rep *TReport, raw json.RawMessage) {
 			case "not_covered":
 				spec.Scopes = []string{"zz"}
 			}
-			if f("client") == "authenticated" {
+			switch f("client") {
+			case "authenticated":
 				spec.Client = "A"
+			case "authenticated_no_grant": // client B authenticates but is not registered for the jwt-bearer grant
+				spec.Client = "B"
+				c := w.Mem.Clients["B"].(*fosite.DefaultClient)
+				gts := []string{}
+				for _, g := range c.GrantTypes {
+					if g != "urn:ietf:params:oauth:grant-type:jwt-bearer" {
+						gts = append(gts, g)
+					}
+				}
+				c.GrantTypes = gts
+			}
+			switch f("form") {
+			case "empty_assertion":
+				spec.Raw = " " // signBearer passes a raw assertion through; the form carries an empty value
+				spec.EmptyAssertion = true
+			case "garbage_assertion":
+				spec.Raw = "this-is-not-a-jwt"
 			}
 			return w.doJWTBearer(1, spec)
 		}
